@@ -234,6 +234,7 @@ class ConditionalEffectsRemover(engines.engine.Engine, CompilerMixin):
                 new_action.clear_effects()
                 for e in action.unconditional_effects:
                     new_action._add_effect_instance(e.clone())
+                conflicting_effects = False
                 for i, e in enumerate(cond_effects):
                     if i in p:
                         # positive precondition
@@ -245,19 +246,21 @@ class ConditionalEffectsRemover(engines.engine.Engine, CompilerMixin):
                             e.kind,
                             e.forall,
                         )
-                        # We try to add the new effect, but it might be in conflict with exising effects,
+                        # We try to add the new effect, but it might be in conflict with exising effects:
+                        # the original action is not applicable when those effects fire together,
                         # so the action is not added to the problem
                         try:
                             new_action._add_effect_instance(ne)
                         except UPConflictingEffectsException:
-                            continue
+                            conflicting_effects = True
+                            break
                     else:
                         # negative precondition
                         new_action.add_precondition(
                             env.expression_manager.Not(e.condition)
                         )
                 # new action is created, then is checked if it has any impact and if it can be simplified
-                if len(new_action.effects) > 0:
+                if not conflicting_effects and len(new_action.effects) > 0:
                     (
                         action_is_feasible,
                         simplified_preconditions,
@@ -281,6 +284,7 @@ class ConditionalEffectsRemover(engines.engine.Engine, CompilerMixin):
                 for t, el in action.unconditional_effects.items():
                     for e in el:
                         new_action._add_effect_instance(t, e.clone())
+                conflicting_effects = False
                 for i, (e, t) in enumerate(cond_effects_timing):
                     if i in p:
                         # positive precondition
@@ -292,19 +296,21 @@ class ConditionalEffectsRemover(engines.engine.Engine, CompilerMixin):
                             e.kind,
                             e.forall,
                         )
-                        # We try to add the new effect, but it might be in conflict with exising effects,
+                        # We try to add the new effect, but it might be in conflict with exising effects:
+                        # the original action is not applicable when those effects fire together,
                         # so the action is not added to the problem
                         try:
                             new_action._add_effect_instance(t, ne)
                         except UPConflictingEffectsException:
-                            continue
+                            conflicting_effects = True
+                            break
                     else:
                         # negative precondition
                         new_action.add_condition(
                             t, env.expression_manager.Not(e.condition)
                         )
                 # new action is created, then is checked if it has any impact and if it can be simplified
-                if len(new_action.effects) > 0:
+                if not conflicting_effects and len(new_action.effects) > 0:
                     (
                         action_is_feasible,
                         simplified_conditions,
